@@ -300,7 +300,38 @@ func mapLoopCarries(rng *ssa.Range) []string {
 	}
 	var out []string
 	for _, ins := range header.Instrs {
-		if phi, ok := ins.(*ssa.Phi); ok {
+		phi, ok := ins.(*ssa.Phi)
+		if !ok {
+			continue
+		}
+		// a plain counter (n += const, used for nothing else inside the loop) ends with the same value in any order
+		counter := true
+		for _, ref := range *phi.Referrers() {
+			ri, isInstr := ref.(ssa.Instruction)
+			if !isInstr || !inLoop[ri.Block()] {
+				continue
+			}
+			bo, isBin := ref.(*ssa.BinOp)
+			_, constY := func() (ssa.Value, bool) {
+				if !isBin {
+					return nil, false
+				}
+				_, c := bo.Y.(*ssa.Const)
+				return bo.Y, c
+			}()
+			if !isBin || !(bo.Op == token.ADD || bo.Op == token.SUB) || !constY || bo.X != ssa.Value(phi) {
+				counter = false
+				break
+			}
+			for _, r2 := range *bo.Referrers() {
+				if r2 != ssa.Instruction(phi) {
+					if i2, ok := r2.(ssa.Instruction); ok && inLoop[i2.Block()] {
+						counter = false
+					}
+				}
+			}
+		}
+		if !counter {
 			out = append(out, "value "+phi.Comment+" merged at the loop header")
 		}
 	}
